@@ -113,6 +113,9 @@ def generate(rs, mode, tier, index):
     n = rng.integers(max(4, n_layers + 2), 30)
     if n_rec >= n_layers + 2 and rng.coin(0.15):
         n = n_rec        # as many samples as receptors: a shape coincidence helpers may trip on
+    big = (mode == "clean" and index % 140 == 7)
+    if big:
+        n = rng.integers(1100, 1400)   # more samples than subsample='fast' keeps (1028)
     # targets: planted factorisation + noise, or arbitrary positive captures
     Kraw = np.asarray(K, float)
 
@@ -133,6 +136,8 @@ def generate(rs, mode, tier, index):
         tk = "arbitrary"
     B = sig(np.maximum(B, applyK(bv[None])[0] * 1.02 + 1e-3))
     sub = rng.choice([None, "fast", "frac"], p=[0.5, 0.2, 0.3])
+    if big:
+        sub = "fast"
     subsample = None if sub is None else ("fast" if sub == "fast" else
                                           float(sig(rng.uniform(0.5, 0.9), 3)))
     if isinstance(subsample, float) and int(n * subsample) < n_layers + 1:
@@ -151,7 +156,7 @@ def generate(rs, mode, tier, index):
             "n_layers": n_layers, "layers_arg": layers_arg, "mask": mask, "mask_cls": mask_cls,
             "equal_l1": rng.coin(0.55), "lbp": lbp, "ubp": ubp, "pb": pb,
             "subsample": subsample, "seed": rng.integers(0, 2 ** 31),
-            "max_iter": rng.integers(2, 12),
+            "max_iter": rng.integers(2, 12) if not big else rng.integers(2, 3),
             "solver": rng.choice(["SCS", "CLARABEL"], p=[0.6, 0.4]),
             "perturb": rng.integers(1, 10 ** 6)}
     if mode == "werror":
